@@ -48,7 +48,10 @@ TRUSTED = [
 ASSUMPTIONS = [
     "contexts are JSON-like with string keys, finite, acyclic; no '$' in the configured context text (it passes through "
     "the config file interpolation, property C35)",
-    "every job in a generated tree has distinct arguments, so no result is shared between calls (sharing across contexts is C05)",
+    "`node`/`probe` jobs have distinct arguments; the `reader`/`wrap` jobs deliberately have the same task and arguments in every "
+    "context (only Job.context_hash keeps them apart) and are generated only under a non-empty execution context, so every compared job "
+    "context is non-empty: an EMPTY-context job served from a context-bearing one is the listed finding of C05 "
+    "(C05-context-free-call-served-context-bearing-result), not part of this check",
     "a single update_context(ctx, **kwargs) call where a previous override, ctx and kwargs all define the same key with a "
     "non-mapping in the middle is outside the statement (Lean remark nary_note); there the override is compared with the model "
     "only, and the job-tree oracle takes the override actually stored on the task",
@@ -58,8 +61,11 @@ RULE = ("JSON-like contexts (depth <= 4, keys from a small alphabet incl. '', 'a
         "lists holding dicts) from one PRNG. Streams: merge_dicts on 0-4 arguments (non-dicts mixed in) vs model, plus the binary "
         "deep-merge spec as oracle; get_context_value on paths derived from the context (valid, truncated, extended, empty "
         "segments, through leaves, missing) vs model and the lookup spec; Task.update_context chains vs model; job trees "
-        "(depth <= 4, nested update_context, get_context in the body and as argument default) run on the real Scheduler, "
-        "every returned value compared with the model's jobContext/getContextValue and with the spec. distinct = distinct "
+        "(depth <= 4, nested update_context, get_context in the body and as argument default; groups of sibling / caller-direct calls "
+        "with the SAME task and arguments under different overrides, incl. task calls used as argument defaults whose context reads "
+        "sit one or two jobs further down) run on the real Scheduler, every returned value compared with the model's "
+        "jobContext/getContextValue and with the spec; every finalized job's context_hash is recorded: equal hashes <=> equal "
+        "contexts per scheduler. distinct = distinct "
         "(inputs) tuples; non-trivial = at least one mapping with a nested mapping or a path of >= 2 segments")
 
 LEVEL_TEXT = ("Proved in Lean, all full strength, for contexts of any depth/width with non-mappings anywhere (Ctx.WF = unique keys is the dict "
@@ -76,7 +82,9 @@ LEVEL_TEXT = ("Proved in Lean, all full strength, for contexts of any depth/widt
 LEVEL_NOTE = ("The scheduler's job tree (which job is whose parent, which override a call carries, where get_context is evaluated) is not inside the "
               "Lean model: jobContext takes the ancestor chain as input; that part is tied only by running generated workflows on the real "
               "Scheduler. var_path.split('.') is String.splitOn in the model (lookup_spec is stated over the segment list). Overrides holding "
-              "Expressions, get_context inside task options, and sharing of results between contexts (C05) are outside this check. A single "
+              "Expressions and get_context inside task options are outside this check. Same-task-same-arguments jobs in different NON-empty "
+              "contexts are in (reads below them, and Job.context_hash: equal hashes <=> equal contexts, observed through a wrapper of "
+              "Scheduler._finalize_job); an empty-context job served from a context-bearing one is C05's listed finding and kept out. A single "
               "update_context(ctx, **kwargs) with previous override + ctx + kwargs all defining one key is the 3-ary merge (nary_note), not a left fold.")
 TECHNIQUE = "Lean 4 proof on a model of merge_dicts/get_context_value/Job.get_context + differential runs of generated job trees on the real Scheduler"
 
@@ -200,22 +208,56 @@ def tasks():
     def probe_c(ident, v=get_context("c")):
         return {"id": ident, "v": v}
 
+    # Jobs with the SAME task and arguments in every context (only the context tells them apart): `reader` reads the
+    # context in its body, `wrap` has no override of its own and reads it in its body and one level down; `mid` / `midr`
+    # use a task call as a default argument (evaluated under the callee's context), `mid_body` makes the call in its body.
+    @task(namespace="verif_c26", name="reader", version="1")
+    def reader(tag):
+        return {"r": [get_context(p, d) for p, d in FQ]}
+
+    @task(namespace="verif_c26", name="wrap", version="1")
+    def wrap(tag):
+        return {"w": [get_context(p, d) for p, d in FQ[:3]], "leaf": reader(tag)}
+
+    @task(namespace="verif_c26", name="mid", version="1")
+    def mid(ident, inner=wrap("W")):
+        return {"id": ident, "inner": inner}
+
+    @task(namespace="verif_c26", name="midr", version="1")
+    def midr(ident, inner=reader("W")):
+        return {"id": ident, "inner": inner}
+
+    @task(namespace="verif_c26", name="mid_body", version="1")
+    def mid_body(ident):
+        return {"id": ident, "inner": wrap("W")}
+
     @task(namespace="verif_c26", name="node", version="1")
     def node(spec):
         q = [get_context(p, d) for p, d in spec["queries"]]
         c = []
         for kind, calls, child in spec["children"]:
-            t = {"node": node, "probe_ab": probe_ab, "probe_c": probe_c}[kind]
+            t = {"node": node, "probe_ab": probe_ab, "probe_c": probe_c, "reader": reader, "wrap": wrap, "mid": mid, "midr": midr,
+                 "mid_body": mid_body}[kind]
             for ctx, kw in calls:
                 t = t.update_context(ctx, **kw)
             c.append(t(child))
         return {"id": spec["id"], "q": q, "c": c}
 
-    _T.update(node=node, probe_ab=probe_ab, probe_c=probe_c, get_context=get_context)
+    _T.update(node=node, probe_ab=probe_ab, probe_c=probe_c, reader=reader, wrap=wrap, mid=mid, midr=midr, mid_body=mid_body,
+              get_context=get_context)
     return _T
 
 
 PROBE_PATH = {"probe_ab": ("a.b", "DFLT"), "probe_c": ("c", None)}
+# the fixed reads of `reader` (all six) and `wrap` (first three)
+FQ = [["a.b", "DFLT"], ["c", None], ["a", 7], ["b.c", 0], ["d", None], ["a.c", "x"]]
+SHARED_KINDS = ["mid", "mid", "midr", "mid_body", "wrap", "reader"]
+
+
+def targeted_override(rng):
+    """a small override that changes what the fixed reads FQ return"""
+    v = rng.choice([0, 1, 2, 3, "s", None, False, {"b": rng.randrange(4)}, {"c": rng.randrange(4)}])
+    return rng.choice([{"a": {"b": v}}, {"c": v}, {"b": {"c": v}}, {"d": v}, {"a": v}, {"a": {"c": v}}, {"a": {"b": v}, "c": rng.randrange(3)}])
 
 
 def apply_calls(t, calls):
@@ -252,8 +294,9 @@ def gen_calls(rng):
     return calls
 
 
-def gen_tree(rng, depth, seed, ctx_hint):
-    """spec of one `node` job; ctx_hint: a context to derive plausible paths from"""
+def gen_tree(rng, depth, seed, ctx_hint, shared=False):
+    """spec of one `node` job; ctx_hint: a context to derive plausible paths from.  shared: also generate groups of calls with the
+    same task and arguments under different overrides (siblings and caller-direct), incl. task calls used as argument defaults"""
     nq = rng.choice([1, 2, 3])
     queries = [[gen_path(rng, ctx_hint), gen_default(rng)] for _ in range(nq)]
     children = []
@@ -267,7 +310,18 @@ def gen_tree(rng, depth, seed, ctx_hint):
                 kind = rng.choice(["probe_ab", "probe_c"])
                 children.append([kind, calls, Ids.next(seed)])
             else:
-                children.append(["node", calls, gen_tree(rng, depth - 1, seed, hint)])
+                children.append(["node", calls, gen_tree(rng, depth - 1, seed, hint, shared)])
+    if shared and rng.random() < (0.6 if depth > 0 else 0.35):
+        group = []
+        kinds = [rng.choice(SHARED_KINDS)] * 2 if rng.random() < 0.5 else []
+        while len(kinds) < rng.choice([2, 2, 3, 4]):
+            kinds.append(rng.choice(SHARED_KINDS))
+        for kind in kinds:
+            r = rng.random()
+            calls = [] if r < 0.2 else ([(targeted_override(rng), {})] if r < 0.8 else gen_calls(rng))
+            group.append([kind, calls, Ids.next(seed) if kind in ("mid", "midr", "mid_body") else "W"])
+        rng.shuffle(group)
+        children.extend(group)
     return {"id": Ids.next(seed), "queries": queries, "children": children}
 
 
@@ -477,6 +531,15 @@ def run_workflows(ctx, reqs, checks):
                 cfg = Config()
             sched = Scheduler(config=cfg)
             sched.load()
+            seen_jobs = []
+
+            def hook(job, _orig=sched._finalize_job, _seen=seen_jobs):
+                try:
+                    _seen.append((job.task.fullname, job.context_hash, canon(job.get_context())))
+                except Exception as e:  # noqa: BLE001
+                    _seen.append((getattr(job.task, "fullname", "?"), job.context_hash, "!" + type(e).__name__))
+                return _orig(job)
+            sched._finalize_job = hook
             for ri in range(n_runs):
                 run_ctx = fixed[si][1] if (si < len(fixed) and ri == 0) else (mutate(rng, config_ctx) if rng.random() < 0.5 else gen_ctx(rng, 2))
                 if rng.random() < 0.15:
@@ -486,7 +549,10 @@ def run_workflows(ctx, reqs, checks):
                 hint = exec_hint
                 for cx, kw in root_calls:
                     hint = spec_merge(spec_merge(hint, cx), kw)
-                spec = gen_tree(rng, rng.choice([1, 2, 2, 3, 3]), ctx.seed, hint)
+                # same-task-same-arguments jobs only under a non-empty execution context (every job context is then non-empty:
+                # an empty-context job served from a context-bearing one is the listed finding of C05, not this property)
+                shared = bool(exec_hint) and rng.random() < 0.7
+                spec = gen_tree(rng, rng.choice([1, 2, 2, 3, 3]), ctx.seed, hint, shared)
                 expr = apply_calls(T["node"], root_calls)(spec)
                 try:
                     result = sched.run(expr, context=run_ctx) if (run_ctx or rng.random() < 0.5) else sched.run(expr)
@@ -496,6 +562,7 @@ def run_workflows(ctx, reqs, checks):
                     continue
                 walk(ctx, reqs, checks, config_ctx, run_ctx, spec, result, [stored_override(apply_calls(T["node"], root_calls))],
                      spec_merge(exec_hint, stored_override(apply_calls(T["node"], root_calls))), 0)
+            check_context_hashes(ctx, seen_jobs, config_ctx)
     finally:
         log.setLevel(old_level)
         shutil.rmtree(tmp, ignore_errors=True)
@@ -525,9 +592,52 @@ def walk(ctx, reqs, checks, config_ctx, run_ctx, spec, result, chain, want_ctx, 
         child_ctx = spec_merge(want_ctx, ov)
         if kind == "node":
             walk(ctx, reqs, checks, config_ctx, run_ctx, child, cres, chain + [ov], child_ctx, depth + 1)
+        elif kind in ("reader", "wrap", "mid", "midr", "mid_body"):
+            # the jobs below have no override of their own: their context is this call's context
+            if kind in ("mid", "midr", "mid_body"):
+                ok = isinstance(cres, dict) and cres.get("id") == child
+                inner, inner_kind = (cres.get("inner") if ok else None), ("reader" if kind == "midr" else "wrap")
+                levels = 1
+            else:
+                inner, inner_kind, levels = cres, kind, 0
+            via = {"mid": "task-call-as-argument-default", "midr": "task-call-as-argument-default", "mid_body": "task-call-in-body",
+                   "reader": "direct-call", "wrap": "direct-call"}[kind]
+            rd = inner.get("leaf") if (inner_kind == "wrap" and isinstance(inner, dict)) else inner
+            if not (isinstance(inner, dict) and isinstance(rd, dict) and len(rd.get("r", [])) == len(FQ)
+                    and (inner_kind != "wrap" or len(inner.get("w", [])) == 3)):
+                ctx.violation("C26-workflow-shape", "workflow result has an unexpected shape", case={"kind": kind, "child": child},
+                              expected=kind + " result", actual=repr(cres)[:300], kind="program")
+                continue
+            if inner_kind == "wrap":
+                for (path, default), got in zip(FQ[:3], inner["w"]):
+                    emit(path, default, got, via + "/wrap-body", "%s>%s" % (spec["id"], kind), chain + [ov] + [{}] * levels, child_ctx,
+                         depth + 1 + levels)
+                levels += 1
+            for (path, default), got in zip(FQ, rd["r"]):
+                emit(path, default, got, via + "/reader-body", "%s>%s" % (spec["id"], kind), chain + [ov] + [{}] * levels, child_ctx,
+                     depth + 1 + levels)
         else:
             path, default = PROBE_PATH[kind]
             emit(path, default, cres.get("v") if isinstance(cres, dict) else cres, "argument-default", child, chain + [ov], child_ctx, depth + 1)
+
+
+def check_context_hashes(ctx, seen_jobs, config_ctx):
+    """Job.context_hash identifies the job's context: over all jobs of one scheduler, equal hashes <=> equal contexts
+    (it is the CSE / cache key component that keeps jobs of different contexts apart)."""
+    by_hash, by_ctx = {}, {}
+    for name, h, c in seen_jobs:
+        ctx.count("context_hash_jobs", "with-context" if h else "empty-context")
+        a = by_hash.setdefault(h, (c, name))
+        if a[0] != c:
+            ctx.violation("C26-context-hash-shared-by-different-contexts", "two jobs with different contexts have the same context_hash "
+                          "(a job's hash is not the hash of its own context)", case={"config": config_ctx, "job_a": a[1], "context_a": a[0][:300],
+                                                                                   "job_b": name, "context_b": c[:300]},
+                          expected="different context_hash", actual=str(h), kind="program")
+        b = by_ctx.setdefault(c, (h, name))
+        if b[0] != h:
+            ctx.violation("C26-context-hash-differs-for-equal-contexts", "two jobs with equal contexts have different context_hash",
+                          case={"config": config_ctx, "job_a": b[1], "job_b": name, "context": c[:300]}, expected=str(b[0]), actual=str(h),
+                          kind="program")
 
 
 def replay(ctx, case):
